@@ -730,8 +730,23 @@ async def make_pair(kind: str, tmpdir: str, idx: int) -> tuple[Any, Any, Any]:
     return client, acc["s"], listener
 
 
-def wbuf(stream: Any) -> int:
+def transport_of(stream: Any) -> Any:
+    """the asyncio transport behind a TCP stream (no public accessor): the attribute holding one"""
     tr = getattr(stream, "_transport", None)
+    if isinstance(tr, asyncio.BaseTransport):
+        return tr
+    names = list(getattr(stream, "__dict__", {}))
+    for klass in type(stream).__mro__:
+        names += list(getattr(klass, "__slots__", ()))
+    for n in names:
+        v = getattr(stream, n, None)
+        if isinstance(v, asyncio.BaseTransport):
+            return v
+    return None
+
+
+def wbuf(stream: Any) -> int:
+    tr = transport_of(stream)
     return tr.get_write_buffer_size() if tr is not None else 0
 
 
@@ -1200,7 +1215,7 @@ def probe_reading0() -> dict[str, bool]:
         tmpdir = tempfile.mkdtemp(prefix="c18_", dir="/tmp")
         try:
             c, s, lst = await make_pair("tcp", tmpdir, 0)
-            out = {"connect": bool(c._transport.is_reading()), "accept": bool(s._transport.is_reading())}
+            out = {"connect": bool(transport_of(c).is_reading()), "accept": bool(transport_of(s).is_reading())}
             for x in (c, s, lst):
                 await x.aclose()
             return out
@@ -1312,9 +1327,18 @@ def run(ctx: Ctx) -> Result:
         flush_unix(lines, pend, res)
     # --- _RawSocketMixin: registrations, done-callbacks and aclose() (model Stream/RawSock.lean; F13)
     if focus in (None, "rawsock"):
-        from . import c18_rawsock
+        # this leg mirrors private state of _RawSocketMixin (its model is a model of that mechanism); if
+        # the private layout has changed it is skipped - the real-socket scenario close_blocked above
+        # still judges the behaviour
+        layout = all(hasattr(UNIXSocketStream, a) for a in
+                     ("_receive_future", "_send_future", "_closing", "_wait_until_readable",
+                      "_wait_until_writable"))
+        if layout:
+            from . import c18_rawsock
 
-        res.merge(c18_rawsock.run(ctx, budget_s=5.0 if ctx.tier == "quick" else 60.0))
+            res.merge(c18_rawsock.run(ctx, budget_s=5.0 if ctx.tier == "quick" else 60.0))
+        else:
+            res.stats["rawsock_leg"] = "skipped: private layout of _RawSocketMixin changed"
     return res
 
 
